@@ -356,8 +356,13 @@ class Gen:
                 row["save_name"] = "res " + self.simple()
         elif t == "start_new_flow":
             row["arg"] = "flow " + self.simple()
-            if r.random() < 0.2:
-                row["obj_id"] = new_uuid(r)
+            # one uuid per flow NAME (two explicit uuids for one name are a conflict the tool rightly
+            # rejects: C06's subject, outside the reference meaning of rows)
+            fkey = "flow:" + row["arg"]
+            if fkey not in self.groups:
+                self.groups[fkey] = new_uuid(r) if r.random() < 0.3 else ""
+            if self.groups[fkey] and r.random() < 0.7:
+                row["obj_id"] = self.groups[fkey]
         elif t == "call_webhook":
             row["arg"] = r.choice(["", "body " + self.simple()])
             row["webhook_url"] = "http://hook/" + self.simple()
